@@ -23,7 +23,7 @@ ANN = {1: "int", 2: "str", 3: "float", 4: "bool", 5: "List[int]", 6: "Optional[s
 DEF = {1: "1", 2: "'two'", 3: "3.0", 4: "True", 5: "(5,)", 6: "None"}
 SRC_ANN = "Literal['a', 'b']"
 WRAP = "Optional[List[{output_param}]]"
-EVAL_VALUE = "('x', 'y')"
+EVAL_VALUES = {"strs": ("('x', 'y')", "Literal['x', 'y']"), "mixed": ("(0, 1, 2, True, 2.5)", "Literal[0, 1, 2, True, 2.5]")}
 
 
 def slot_src(s, k, is_class):
@@ -90,7 +90,7 @@ def producer(first: int, src: {ann} = 'a', p1: {ann} = 'a', p2: {ann} = 'a', p3:
              k2: {ann} = 'a'):
     """The producer"""
     return src
-'''.format(ev=EVAL_VALUE, ann=SRC_ANN)
+'''.replace('{ann}', SRC_ANN)
 
 
 def project(tree, sh):
@@ -143,7 +143,7 @@ def run_case(args):
         with open(out_p, "w") as f:
             f.write(out_src)
         with open(in_p, "w") as f:
-            f.write(INPUT)
+            f.write(INPUT.replace('{ev}', EVAL_VALUES[c.get('vals', 'strs')][0]))
         tname = "{}{}".format(*case["before"][c["target"] - 1]["name"])
         if sh["kind"] == "class":
             out_param = "Target." + tname
@@ -183,7 +183,7 @@ def run_case(args):
         if case["raises"]:
             res["stale"] = True
         with open(in_p) as f:
-            if f.read() != INPUT:
+            if f.read() != INPUT.replace('{ev}', EVAL_VALUES[c.get('vals', 'strs')][0]):
                 res["fails"].append("InputUntouched: the input file was modified")
         with open(out_p) as f:
             text = f.read()
@@ -205,7 +205,7 @@ def run_case(args):
             if k == c["target"] - 1:
                 if c["mode"] != "eval" and not c.get("same"):
                     n = "src"
-                a = {"plain": SRC_ANN, "wrap": WRAP.format(output_param=SRC_ANN), "eval": "Literal['x', 'y']"}[c["mode"]]
+                a = {"plain": SRC_ANN, "wrap": WRAP.format(output_param=SRC_ANN), "eval": EVAL_VALUES[c.get("vals", "strs")][1]}[c["mode"]]
             want.append([n, a, dflt, s["kwonly"]])
         norm = lambda x: None if x is None else ast.unparse(ast.parse(x, mode="eval"))  # noqa: E731
         got = [[n, norm(a), norm(dd), kw] for n, a, dd, kw in after_slots]
